@@ -65,6 +65,7 @@ uint64_t now_ns();                 // monotonic simulated time
 uint64_t wall_ns();                // CLOCK_REALTIME as seen by the subject
 void skew_wall(int64_t delta_ns);  // fault: wall-clock jump
 uint64_t next_seq();               // global event sequence number
+bool deterministic_mode();         // POL_NONPREEMPT: deterministic-history mode
 uint64_t rnd(uint64_t n);          // harness randomness from the sched stream (rarely needed)
 
 // "API call in progress" marker used by the stuck rule (DESIGN 3.1): while the
